@@ -12,7 +12,7 @@ package server
 //@ ensures[C04] def: result == ets(path)
 
 //@ func (*server.LoadBalancer).nextTarget
-//@ requires inv_index: 0 <= lb.index && lb.index < 1000000000
+//@ requires inv_index: 0 <= lb.index && lb.index <= 140737488355328
 //@ assigns lb.index
 //@ ensures[C09] empty: len(old(lb.healthy)) == 0 ==> result == nil && lb.index == old(lb.index)
 //@ ensures[C09] step: len(old(lb.healthy)) > 0 ==> lb.index == (old(lb.index) + 1) % len(old(lb.healthy)) && result == old(lb.healthy)[lb.index]
@@ -35,6 +35,7 @@ package server
 //@ func (*server.Service).loadBalancerForRequest
 //@ requires req != nil && req.URL != nil
 //@ assigns nothing
+//@ emits PickLB(s, result)
 //@ ensures[C10] no_split: (s.rollout == nil || s.rolloutController == nil) ==> result == s.active
 //@ ensures[C10] no_cookie: !hasCookie(ref(req), "kamal-rollout") ==> result == s.active
 //@ ensures[C10] split: s.rollout != nil && s.rolloutController != nil && rolloutValue(ref(req)) != "" ==> result == ite(in(rolloutValue(ref(req)), s.rolloutController.Allowlist) || inPercentage(rolloutValue(ref(req)), s.rolloutController.PercentageSplitPoint), s.rollout, s.active)
@@ -47,3 +48,166 @@ package server
 //@ func (*server.Service).StopRollout
 //@ assigns s.rolloutController
 //@ ensures[C10] cleared: err == nil && s.rolloutController == nil
+
+//@ func server.SetErrorResponse
+//@ requires r != nil && !isnil(w) && ctxWF(r)
+//@ assigns errResp(r).StatusCode, errResp(r).TemplateArguments, @writerFrame
+//@ ensures[C08,C15] recorded: old(hasErrResp(r)) ==> errResp(r).StatusCode == statusCode && errResp(r).TemplateArguments == templateArguments && none(HttpError) && none(WriteHeader) && none(Write)
+//@ ensures[C08,C15] fallback: !old(hasErrResp(r)) ==> emitted(HttpError(w, statusCode))
+//@ emits ErrResp(w, statusCode, templateArguments)
+
+//@ func (*server.Target).handleProxyError
+//@ requires r != nil && r.URL != nil && !isnil(w) && t.targetURL != nil && ctxWF(r)
+//@ assigns errResp(r).StatusCode, errResp(r).TemplateArguments, @writerFrame
+//@ ensures[C15] too_large: tooLarge(err) ==> emitted(ErrResp(w, 413, _))
+//@ ensures[C15] timeout: !tooLarge(err) && timedOut(err) ==> emitted(ErrResp(w, 504, _))
+//@ ensures[C15,C19] client_gone: !tooLarge(err) && !timedOut(err) && clientGone(err) ==> emitted(WriteHeader(w, 499)) && none(ErrResp)
+//@ ensures[C15,C03] draining: !tooLarge(err) && !timedOut(err) && !clientGone(err) && draining(err) ==> emitted(ErrResp(w, 504, _))
+//@ ensures[C15] bad_gateway: !tooLarge(err) && !timedOut(err) && !clientGone(err) && !draining(err) ==> emitted(ErrResp(w, 502, _))
+//@ ensures[C15,C19] exactly_one: count(ErrResp(_, _, _)) + count(WriteHeader(_, _)) == 1 && none(Forward) && none(Write)
+
+//@ func (*server.ErrorPageMiddleware).getTemplate
+//@ assigns nothing
+//@ ensures[C08,C15] lookup: ref(result) == pageFor(h.template, statusCode)
+
+//@ func (*server.ErrorPageMiddleware).respondWithErrorPage
+//@ requires !isnil(w)
+//@ assigns @writerFrame, mapof(hdrOf(payload(w)))
+//@ ensures[C08,C15] status_first: emitted(WriteHeader(w, statusCode)) && first(WriteHeader(w, statusCode), Render(_, _, _)) && first(WriteHeader(w, statusCode), Fprintf(_))
+//@ ensures[C08,C15] custom_page: pageFor(h.template, statusCode) != 0 ==> emitted(Render(w, pageFor(h.template, statusCode), templateArguments))
+//@ ensures[C08,C15] not_found_inner: pageFor(h.template, statusCode) == 0 && !h.root ==> !result && none(Render) && none(Fprintf)
+//@ ensures[C08,C15] not_found_root: pageFor(h.template, statusCode) == 0 && h.root ==> result && emitted(Fprintf(w)) && none(Render)
+//@ ensures[C08,C15] handled: result || !h.root
+
+//@ func (*server.ErrorPageMiddleware).ServeHTTP
+//@ requires r != nil && !isnil(w) && ctxWF(r) && !isnil(h.next)
+//@ assigns *
+//@ ensures[C08,C15] forwards_once: count(Forward(_, _, _)) == 1 && emitted(Forward(old(h.next), w, _))
+//@ ensures[C08,C15,C19] silent_before_next: first(Forward(old(h.next), w, _), WriteHeader(_, _)) && first(Forward(old(h.next), w, _), Render(_, _, _)) && first(Forward(old(h.next), w, _), Fprintf(_))
+
+//@ func (*server.Target).createProxyHandler
+//@ assigns nothing
+//@ ensures[C15,C17] response_timeout: as(payload(as(payload(result), `*net/http/httputil.ReverseProxy`).Transport), `*net/http.Transport`).ResponseHeaderTimeout == t.options.ResponseTimeout
+//@ ensures[C15] error_handler: boundmethod(as(payload(result), `*net/http/httputil.ReverseProxy`).ErrorHandler, "(*server.Target).handleProxyError", t)
+//@ ensures[C13] rewrite_hook: boundmethod(as(payload(result), `*net/http/httputil.ReverseProxy`).Rewrite, "(*server.Target).rewrite", t) && isnil(as(payload(result), `*net/http/httputil.ReverseProxy`).Director) && isnil(as(payload(result), `*net/http/httputil.ReverseProxy`).ModifyResponse)
+//@ ensures[C13,C15] is_reverse_proxy: typeis(result, `*net/http/httputil.ReverseProxy`) && fresh(payload(result))
+
+//@ func (*server.Target).SendRequest
+//@ requires req != nil && !isnil(w) && ctxWF(req) && !isnil(t.proxyHandler) && t.targetURL != nil
+//@ assigns *
+//@ ensures[C15,C03] inflight_removed: !haskey(t.inflight, req)
+//@ on_panic ensures[C15,C03] inflight_removed_on_panic: !haskey(t.inflight, req)
+//@ ensures[C15,C19] one_forward: count(Forward(_, _, _)) == 1 && emitted(Forward(old(t.proxyHandler), _, req))
+//@ ensures[C15] lock_released: !held(t.inflightLock)
+
+//@ func server.NewPauseController
+//@ assigns nothing
+//@ ensures[C07,C08,C11] running: fresh(result) && result.State == PauseStateRunning && result.StopMessage == "" && pauseInv(result)
+
+//@ func (*server.PauseController).setState
+//@ requires newState == PauseStateRunning || newState == PauseStateStopped
+//@ assigns p.State, p.StopMessage, closed(p.pauseChannel)
+//@ ensures[C07,C08] state_set: p.State == newState && p.StopMessage == message
+//@ ensures[C07] releases_waiters: old(p.State) == PauseStatePaused && newState != PauseStatePaused ==> closed(p.pauseChannel)
+//@ ensures[C07] only_then: !(old(p.State) == PauseStatePaused && newState != PauseStatePaused) ==> closed(p.pauseChannel) == old(closed(p.pauseChannel))
+//@ ensures[C07,C18] lock_free: !held(p.lock)
+
+//@ func (*server.PauseController).Stop
+//@ assigns p.State, p.StopMessage, closed(p.pauseChannel)
+//@ ensures[C08] stopped: err == nil && p.State == PauseStateStopped && p.StopMessage == message
+//@ ensures[C07] releases_waiters: old(p.State) == PauseStatePaused ==> closed(p.pauseChannel)
+
+//@ func (*server.PauseController).Resume
+//@ assigns p.State, p.StopMessage, closed(p.pauseChannel)
+//@ ensures[C07,C08] running: err == nil && p.State == PauseStateRunning && p.StopMessage == ""
+//@ ensures[C07] releases_waiters: old(p.State) == PauseStatePaused ==> closed(p.pauseChannel)
+
+//@ func (*server.PauseController).Pause
+//@ assigns p.State, p.StopMessage, p.FailAfter, p.pauseChannel
+//@ ensures[C07] paused: err == nil && p.State == PauseStatePaused && p.StopMessage == "" && p.FailAfter == failAfter
+//@ ensures[C07] new_channel_on_change: old(p.State) != PauseStatePaused ==> fresh(p.pauseChannel) && !closed(p.pauseChannel)
+//@ ensures[C07] keeps_channel: old(p.State) == PauseStatePaused ==> p.pauseChannel == old(p.pauseChannel)
+//@ ensures[C07,C18] lock_free: !held(p.lock)
+
+//@ func (*server.PauseController).getWaitState
+//@ assigns nothing
+//@ ensures[C07] snapshot: result0 == p.State && (p.State == PauseStatePaused ==> result1 == "" && result2 == p.pauseChannel && fresh(result3) && fireAt(result3) == now + max(p.FailAfter, 0))
+//@ ensures[C07,C08] not_paused: p.State != PauseStatePaused ==> result1 == p.StopMessage && result2 == nil && result3 == nil
+//@ ensures[C07] valid_state: result0 == PauseStateRunning || result0 == PauseStatePaused || result0 == PauseStateStopped
+//@ ensures[C07] no_time: now == old(now)
+
+//@ func (*server.PauseController).Wait
+//@ attr blocks
+//@ assigns nothing
+//@ emits Gate(p, old(p.State), result0, result1)
+//@ ensures[C07] valid_action: result0 == PauseWaitActionProceed || result0 == PauseWaitActionTimedOut || result0 == PauseWaitActionStopped
+//@ ensures[C07] running: old(p.State) == PauseStateRunning ==> result0 == PauseWaitActionProceed && result1 == "" && now == old(now)
+//@ ensures[C07,C08] stopped: old(p.State) == PauseStateStopped ==> result0 == PauseWaitActionStopped && result1 == old(p.StopMessage) && now == old(now)
+//@ ensures[C07] held_at_most_max_pause: now <= old(now) + max(old(p.FailAfter), 0)
+//@ ensures[C07] timed_out_only_at_limit: old(p.State) == PauseStatePaused && result0 == PauseWaitActionTimedOut ==> now >= old(now) + max(old(p.FailAfter), 0)
+//@ ensures[C07] released_only_by_channel: old(p.State) == PauseStatePaused && result0 != PauseWaitActionTimedOut ==> closed(old(p.pauseChannel))
+//@ ensures[C07,C08] stop_message: old(p.State) == PauseStatePaused && result0 == PauseWaitActionStopped ==> p.State == PauseStateStopped && result1 == p.StopMessage
+
+//@ func (*server.Service).shouldRedirectToHTTPS
+//@ requires r != nil
+//@ assigns nothing
+//@ ensures[C16] policy: result == (s.options.TLSEnabled && s.options.TLSRedirect && r.TLS == nil)
+
+//@ func (*server.Service).redirectToHTTPS
+//@ requires r != nil && r.URL != nil && !isnil(w)
+//@ assigns @writerFrame, mapof(hdrOf(payload(w)))
+//@ ensures[C16] moved_permanently: !strings.HasPrefix(r.Host, "[") ==> emitted(Redirect(w, 301, "https://" + hostOf(r.Host) + requestURI(ref(r.URL))))
+//@ ensures[C16] moved_permanently_ip_literal: strings.HasPrefix(r.Host, "[") ==> emitted(Redirect(w, 301, "https://" + hostOf(r.Host) + requestURI(ref(r.URL))))
+//@ ensures[C16] https_same_uri: emitted(Redirect(w, 301, "https://" + ite(splitOK(r.Host), splitHost(r.Host), r.Host) + requestURI(ref(r.URL))))
+//@ ensures[C16] closes_connection: emitted(SetHeader(hdrOf(payload(w)), "Connection", "close")) && count(Redirect(_, _, _)) == 1 && none(Forward) && none(ErrResp)
+
+//@ func (*server.Service).handlePausedAndStoppedRequests
+//@ requires r != nil && r.URL != nil && !isnil(w) && ctxWF(r) && s.pauseController != nil
+//@ attr blocks
+//@ assigns errResp(r).StatusCode, errResp(r).TemplateArguments, @writerFrame
+//@ ensures[C07,C08] health_check: old(s.pauseController.State) != PauseStateRunning && old(r.Method) == "GET" && old(r.URL.Path) == old(s.targetOptions.HealthCheckConfig.Path) ==> result && emitted(WriteHeader(w, 200)) && none(ErrResp) && none(Gate) && now == old(now)
+//@ ensures[C07] running: emitted(Gate(_, PauseStateRunning, _, _)) ==> !result
+//@ ensures[C08] stopped: emitted(Gate(_, PauseStateStopped, _, _)) ==> result && emitted(ErrResp(w, 503, _))
+//@ ensures[C08] stop_message: old(hasErrResp(r)) && emitted(ErrResp(w, 503, _)) ==> emitted(Gate(_, _, PauseWaitActionStopped, unbox(errResp(r).TemplateArguments, `struct{Message string}`).Message))
+//@ ensures[C07] proceeds_silently: !result ==> none(ErrResp) && none(WriteHeader) && emitted(Gate(_, _, PauseWaitActionProceed, _))
+//@ ensures[C07,C08] answers_once: result ==> count(ErrResp(_, _, _)) + count(WriteHeader(_, _)) == 1
+//@ ensures[C07] timeout_is_504: emitted(ErrResp(w, 504, _)) <==> emitted(Gate(_, _, PauseWaitActionTimedOut, _))
+//@ ensures[C07,C08] stop_is_503: emitted(ErrResp(w, 503, _)) <==> emitted(Gate(_, _, PauseWaitActionStopped, _))
+//@ ensures[C07,C08] never_forwards: none(Forward) && none(LBServe) && only(ErrResp, WriteHeader, Gate, Lock, Unlock)
+//@ ensures[C07] codes: none(ErrResp(_, 502, _)) && none(ErrResp(_, 404, _)) && count(Gate(_, _, _, _)) <= 1
+
+//@ func (*server.Target).StartRequest
+//@ requires req != nil
+//@ assigns mapof(t.inflight)
+//@ ensures[C03] refuses_while_draining: old(t.state) == TargetStateDraining ==> err == ErrorDraining && result0 == nil && forall k `*net/http.Request` :: haskey(t.inflight, k) == old(haskey(t.inflight, k))
+//@ ensures[C03,C15] registers: old(t.state) != TargetStateDraining ==> err == nil && result0 != nil && fresh(result0) && haskey(t.inflight, result0) && origin(result0) == origin(req) && (ctxWF(req) ==> ctxWF(result0))
+//@ ensures[C03] keeps_others: forall k `*net/http.Request` :: k != result0 ==> haskey(t.inflight, k) == old(haskey(t.inflight, k))
+//@ ensures[C18] lock_free: !held(t.inflightLock)
+
+//@ func (*server.LoadBalancer).claimTarget
+//@ requires req != nil
+//@ assigns lb.index, mapsof(Target.inflight)
+//@ ensures[C09,C02] no_healthy_target: len(old(lb.healthy)) == 0 ==> err == ErrorNoHealthyTargets && result0 == nil && lb.index == old(lb.index)
+//@ ensures[C09] rotation: len(old(lb.healthy)) > 0 ==> lb.index == (old(lb.index) + 1) % len(old(lb.healthy)) && result0 == old(lb.healthy)[lb.index]
+//@ ensures[C02,C03] only_draining_refuses: len(old(lb.healthy)) > 0 && err != nil ==> err == ErrorDraining
+//@ ensures[C09,C15] request_registered: err == nil ==> targetWF(result0) && result1 != nil && haskey(result0.inflight, result1) && origin(result1) == origin(req) && (ctxWF(req) ==> ctxWF(result1))
+//@ ensures[C18] lock_free: !held(lb.lock)
+
+//@ func (*server.LoadBalancer).ServeHTTP
+//@ requires r != nil && !isnil(w) && ctxWF(r)
+//@ assigns *
+//@ emits LBServe(lb, w, r)
+//@ ensures[C09,C02] unavailable_without_healthy_target: none(Forward) ==> emitted(ErrResp(w, 503, _))
+//@ ensures[C09,C15] one_outcome: count(Forward(_, _, _)) + count(ErrResp(_, _, _)) == 1
+//@ ensures[C02,C09] own_errors_only_503: none(ErrResp(_, 404, _)) && none(ErrResp(_, 502, _)) && none(ErrResp(_, 504, _))
+
+//@ func (*server.Service).serviceRequestWithTarget
+//@ requires r != nil && r.URL != nil && !isnil(w) && ctxWF(r) && s.pauseController != nil && s.active != nil
+//@ attr blocks
+//@ assigns *
+//@ ensures[C16] redirects_plain_http: old(s.options.TLSEnabled) && old(s.options.TLSRedirect) && old(r.TLS) == nil ==> count(Redirect(_, 301, _)) == 1 && none(LBServe) && none(Gate) && none(ErrResp) && none(PickLB) && now == old(now)
+//@ ensures[C16] refuses_tls_when_disabled: !old(s.options.TLSEnabled) && old(r.TLS) != nil ==> emitted(ErrResp(w, 503, _)) && none(LBServe) && none(Gate) && none(Redirect) && none(PickLB) && now == old(now)
+//@ ensures[C07,C16] gate_before_pick: first(Gate(_, _, _, _), PickLB(_, _)) && first(PickLB(_, _), LBServe(_, _, _))
+//@ ensures[C07,C08] forwards_only_when_released: emitted(LBServe(_, _, _)) ==> emitted(Gate(_, _, PauseWaitActionProceed, _)) && none(ErrResp) && none(Redirect)
+//@ ensures[C10,C02] serves_picked_balancer: count(LBServe(_, _, _)) <= 1 && count(PickLB(_, _)) <= 1
+//@ ensures[C02] no_404_502: none(ErrResp(_, 404, _)) && none(ErrResp(_, 502, _))
